@@ -71,6 +71,16 @@ func mix64(x uint64) uint64 {
 	return x ^ (x >> 31)
 }
 
+// drawIndex: an (almost) uniform index from several biased byte draws.
+func drawIndex(t *rapid.T, n int, label string) int {
+	bs := rapid.SliceOfN(rapid.Byte(), 6, 6).Draw(t, label)
+	var x uint64
+	for _, b := range bs {
+		x = x<<8 | uint64(b)
+	}
+	return int(mix64(x) % uint64(n))
+}
+
 func drawBytes(t *rapid.T, n int, label string) []byte {
 	if n <= 24 {
 		return rapid.SliceOfN(rapid.Byte(), n, n).Draw(t, label)
@@ -257,7 +267,7 @@ func genWire(t *rapid.T) wireCase {
 	bs := usable()
 	// rapid's integer generators favour small values; the message type is therefore taken from
 	// a mixed 64-bit draw so that all 45 types get the same share of the cases
-	b := bs[int(mix64(rapid.Uint64().Draw(t, "msg"))%uint64(len(bs)))]
+	b := bs[drawIndex(t, len(bs), "msg")]
 	return drawWire(t, b, nil)
 }
 
